@@ -19,6 +19,7 @@ def run(ctx):
     solveprog.r_solve_program(ctx, {"drain", "generate"})
     pepsolve.r_fresh_declarations(ctx)
     pepsolve.r_declare(ctx)
+    pepsolve.r_registry(ctx)
     wrappers.r_sense(ctx)
     wrappers.r_cmp(ctx)
     translate.r_keykinds(ctx)
